@@ -341,7 +341,9 @@ def accessor_world(rng, S, ET):
                 syms.append(S.func('foo_acc_' + mname, S.VOID if setter else S.td('gboolean' if p in ('visible', 'is-active') else 'gint'), ps, line=line))
                 line += 1
                 if rng.random() < 0.4:
-                    other = rng.choice(props)
+                    other = p if rng.random() < 0.5 else rng.choice(props)
+                    if rng.random() < 0.5:
+                        other = other.replace('-', '_')      # the C spelling of a dashed property name: not the name of a property
                     comments.append(('/**\n * foo_acc_%s: (%s %s)\n * @self: it\n%s */' % (mname, 'set-property' if setter else 'get-property', other,
                                                                                           ' * @v: value\n' if setter else ''), '/src/foo.c', cline))
                     cline += 10
